@@ -10,6 +10,10 @@ class Monitor(object):
     def step(self, w):
         return []
 
+    def before_last(self, w, ev):
+        """Called on the world reached by the parent history, just before the last event is applied."""
+        return None
+
     def key(self):
         return ()
 
@@ -41,3 +45,54 @@ def accepted(r):
 
 
 __all__ = ['Monitor', 'V', 'pubs', 'accepted']
+
+
+from . import refcodec as _rc
+
+
+def rx_packets(w):
+    """[(conn idx, packet dict)] for every complete broker packet delivered in this step (reference decoder)."""
+    out = []
+    for o in w.new_obs():
+        if o[0] == 'rx':
+            try:
+                pk, _ = _rc.split_stream(o[2])
+            except _rc.RefError:
+                continue
+            for raw in pk:
+                try:
+                    d = _rc.decode(raw, strict=False)
+                except _rc.RefError:
+                    continue
+                out.append((o[1], d))
+    return out
+
+
+def writes(w):
+    """[(conn idx, packet dict, obs)] for every packet written in this step."""
+    out = []
+    for o in w.new_obs():
+        if o[0] == 'w':
+            for p in o[5]:
+                out.append((o[1], p, o))
+    return out
+
+
+def fires(w, kinds=('pub', 'sub', 'unsub', 'connect')):
+    """[(req, how, value, is_reason)] Deferred firings observed in this step."""
+    out = []
+    for o in w.new_obs():
+        if o[0] == 'fire' and o[1] >= 0:
+            r = w.reqs[o[1]]
+            if r.kind in kinds:
+                out.append((r, o[2], o[3], o[4]))
+    return out
+
+
+def pending_before(w, r):
+    """Was request r pending (returned a Deferred, not fired) when this step started?"""
+    return r.ret == 'deferred' and r.call_step < w.step and not any(f[0] < w.step for f in r.fires)
+
+
+CONNECTED = (('connect', 0, True, 0, 4), ('connack', 0, 0, False))
+CONNECTED_P = (('connect', 0, False, 0, 4), ('connack', 0, 0, False))
